@@ -85,6 +85,7 @@ REPORT_WX = {
     "weast":  ("2020-01-01", 366, TZ_OTHER),
     "wgap":   ("2020-04-01", 61, TZ),
     "wlong":  ("2020-01-01", 600, TZ),      # more than a year: every calendar day of the first months occurs twice
+    "whalf":  ("2020-06-01", 14, TZ),       # CalTRACK family only: a 30-MINUTE feed (two rows per hour, the temperature differing between them)
     "wdup":   ("2020-05-01", 45, TZ),       # some timestamps occur twice, the two rows carrying different temperatures; the first one has no usage       # weather feed with short gaps (hourly: 3 hours every 36; daily: every 11th day)
 }
 
@@ -223,7 +224,13 @@ def build(fam, kind, name, obs_variant="orig", ghi=False, supp=False):
         else:
             start, days, tz = REPORT_WX[name]
             idx, T = hourly_weather(start, days, tz, "r" + name)
-            obs = _apply_obs(hourly_usage(T, idx, HCURVE_A, 0.1, "r" + tag) * 0.85, obs_variant, tag)
+            if name == "whalf" and fam == "caltrack":
+                # sub-hourly interval data: the CalTRACK data class sums the usage and averages the temperature of each hour.  The
+                # second half-hour is 3 F warmer, so WHICH intervals enter the hourly mean matters - and must not depend on usage
+                # (the 30 %-NaN variant blanks one of the two readings of some hours, both of others)
+                idx = idx.repeat(2) + pd.to_timedelta(np.tile([0, 30], len(idx)), unit="min")
+                T = np.repeat(T, 2) + np.tile([0.0, 3.0], len(T))
+            obs = _apply_obs(hourly_usage(T, idx, HCURVE_A, 0.1, "r" + tag) * (0.425 if len(idx) > days * 24 + 1 else 0.85), obs_variant, tag)
             T = weather_gaps(name, T, True)
         cols = {"temperature": T}
         if ghi:
